@@ -700,6 +700,18 @@ let rec existsb f = function
 | [] -> false
 | a :: l0 -> (||) (f a) (existsb f l0)
 
+(** val filter : ('a1 -> bool) -> 'a1 list -> 'a1 list **)
+
+let rec filter f = function
+| [] -> []
+| x :: l0 -> if f x then x :: (filter f l0) else filter f l0
+
+(** val find : ('a1 -> bool) -> 'a1 list -> 'a1 option **)
+
+let rec find f = function
+| [] -> None
+| x :: tl0 -> if f x then Some x else find f tl0
+
 (** val firstn : nat -> 'a1 list -> 'a1 list **)
 
 let rec firstn n0 l =
@@ -893,6 +905,29 @@ let ofNs l =
 let ofopt f = function
 | Some x -> f x
 | None -> VBot
+
+type handler = val0 list -> val0 option
+
+(** val lookup : string -> (string * handler) list -> handler option **)
+
+let rec lookup op = function
+| [] -> None
+| p :: r -> let (n0, h) = p in if eqb1 op n0 then Some h else lookup op r
+
+(** val run_table :
+    (string * handler) list -> string -> val0 -> val0 option **)
+
+let run_table tbl op = function
+| VL args -> (match lookup op tbl with
+              | Some h -> h args
+              | None -> None)
+| _ -> None
+
+(** val ofoptN : n option -> val0 **)
+
+let ofoptN = function
+| Some x -> VL ((VN x) :: [])
+| None -> VL []
 
 type dna = n list
 
@@ -1598,6 +1633,46 @@ let tbl_bits_to_base =
     XH))))))) :: ((Npos (XO (XO (XO (XI (XI (XO XH))))))) :: ((Npos (XO (XO
     (XO (XI (XI (XO
     XH))))))) :: [])))))))))))))))))))))))))))))))))))))))))))))))))))))))))))))))))))))))))))))))))))))))))))))))))))))))))))))))))))))))))))))))))))))))))))))))))))))))))))))))))))))))))))))))))))))))))))))))))))))))))))))))))))))))))))))))))))))))))))))))))))))))))))))))
+
+(** val exts_from_single_dirs : n list **)
+
+let exts_from_single_dirs =
+  (Npos (XO (XO XH))) :: ((Npos (XI (XI (XI XH)))) :: [])
+
+(** val exts_merge : n list **)
+
+let exts_merge =
+  (Npos (XI (XI (XI XH)))) :: ((Npos (XO (XO (XO (XO (XI (XI (XI
+    XH)))))))) :: [])
+
+(** val exts_set : n list **)
+
+let exts_set =
+  (Npos (XO (XO XH))) :: (N0 :: [])
+
+(** val exts_complement : n list **)
+
+let exts_complement =
+  (Npos (XI (XO (XI (XO (XI (XO XH))))))) :: ((Npos XH) :: ((Npos
+    XH) :: ((Npos (XI (XO (XI (XO (XI (XO XH))))))) :: ((Npos (XI (XI (XO (XO
+    (XI XH)))))) :: ((Npos (XO XH)) :: ((Npos (XO XH)) :: ((Npos (XI (XI (XO
+    (XO (XI XH)))))) :: [])))))))
+
+(** val exts_reverse : n list **)
+
+let exts_reverse =
+  (Npos (XI (XI (XI XH)))) :: ((Npos (XO (XO XH))) :: ((Npos (XO (XO
+    XH))) :: []))
+
+(** val exts_single_dir : n list **)
+
+let exts_single_dir =
+  (Npos (XO (XO XH))) :: ((Npos (XI (XI (XI XH)))) :: [])
+
+(** val exts_dir_bits : n list **)
+
+let exts_dir_bits =
+  (Npos (XO (XO XH))) :: ((Npos (XI (XI (XI XH)))) :: [])
 
 type kcfg = { kW : nat; kK : nat; kInt : bool }
 
@@ -2656,18 +2731,852 @@ let rec dedup_by eqb2 = function
    | [] -> x :: []
    | y :: t -> if eqb2 x y then y :: t else x :: (y :: t))
 
+(** val u8 : n -> n **)
+
+let u8 x =
+  N.modulo x (Npos (XO (XO (XO (XO (XO (XO (XO (XO XH)))))))))
+
+(** val pin : n list -> nat -> n **)
+
+let pin l i =
+  nth i l N0
+
+(** val e_from_single_dirs : n -> n -> n **)
+
+let e_from_single_dirs left right =
+  N.coq_lor (u8 (N.shiftl right (pin exts_from_single_dirs O)))
+    (N.coq_land left (pin exts_from_single_dirs (S O)))
+
+(** val e_merge : n -> n -> n **)
+
+let e_merge left right =
+  N.coq_lor (N.coq_land left (pin exts_merge O))
+    (N.coq_land right (pin exts_merge (S O)))
+
+(** val e_add : n -> n -> n **)
+
+let e_add =
+  N.coq_lor
+
+(** val e_set : n -> bool -> n -> n option **)
+
+let e_set e dir pos =
+  let shift = N.add pos (if dir then pin exts_set O else pin exts_set (S O))
+  in
+  if N.ltb shift (Npos (XO (XO (XO XH))))
+  then Some (N.coq_lor e (N.shiftl (Npos XH) shift))
+  else None
+
+(** val e_dir_bits : n -> bool -> n **)
+
+let e_dir_bits e = function
+| true -> N.shiftr e (pin exts_dir_bits O)
+| false -> N.coq_land e (pin exts_dir_bits (S O))
+
+(** val e_get : n -> bool -> n list **)
+
+let e_get e dir =
+  filter (fun i ->
+    N.ltb N0 (N.coq_land (e_dir_bits e dir) (N.shiftl (Npos XH) i)))
+    (N0 :: ((Npos XH) :: ((Npos (XO XH)) :: ((Npos (XI XH)) :: []))))
+
+(** val e_has_ext : n -> bool -> n -> bool **)
+
+let e_has_ext e dir base =
+  N.ltb N0 (N.coq_land (e_dir_bits e dir) (u8 (N.shiftl (Npos XH) base)))
+
+(** val e_num_ext_dir : n -> bool -> n **)
+
+let e_num_ext_dir e dir =
+  let b = e_dir_bits e dir in
+  N.add
+    (N.add
+      (N.add (N.coq_land b (Npos XH))
+        (N.shiftr (N.coq_land b (Npos (XO XH))) (Npos XH)))
+      (N.shiftr (N.coq_land b (Npos (XO (XO XH)))) (Npos (XO XH))))
+    (N.shiftr (N.coq_land b (Npos (XO (XO (XO XH))))) (Npos (XI XH)))
+
+(** val e_mk_left : n -> n option **)
+
+let e_mk_left base =
+  e_set N0 false base
+
+(** val e_mk_right : n -> n option **)
+
+let e_mk_right base =
+  e_set N0 true base
+
+(** val e_mk : n -> n -> n option **)
+
+let e_mk l r =
+  match e_mk_left l with
+  | Some a ->
+    (match e_mk_right r with
+     | Some b -> Some (e_merge a b)
+     | None -> None)
+  | None -> None
+
+(** val e_get_unique_extension : n -> bool -> n option **)
+
+let e_get_unique_extension e dir =
+  if negb (N.eqb (e_num_ext_dir e dir) (Npos XH))
+  then None
+  else find (fun i ->
+         N.ltb N0 (N.coq_land (e_dir_bits e dir) (N.shiftl (Npos XH) i)))
+         (N0 :: ((Npos XH) :: ((Npos (XO XH)) :: ((Npos (XI XH)) :: []))))
+
+(** val e_single_dir : n -> bool -> n **)
+
+let e_single_dir e = function
+| true -> N.shiftr e (pin exts_single_dir O)
+| false -> N.coq_land e (pin exts_single_dir (S O))
+
+(** val e_complement : n -> n **)
+
+let e_complement v =
+  let r =
+    N.coq_lor
+      (u8
+        (N.shiftl (N.coq_land v (pin exts_complement O))
+          (pin exts_complement (S O))))
+      (N.coq_land (N.shiftr v (pin exts_complement (S (S O))))
+        (pin exts_complement (S (S (S O)))))
+  in
+  N.coq_lor
+    (u8
+      (N.shiftl (N.coq_land r (pin exts_complement (S (S (S (S O))))))
+        (pin exts_complement (S (S (S (S (S O))))))))
+    (N.coq_land (N.shiftr r (pin exts_complement (S (S (S (S (S (S O))))))))
+      (pin exts_complement (S (S (S (S (S (S (S O)))))))))
+
+(** val e_reverse : n -> n **)
+
+let e_reverse v =
+  N.coq_lor
+    (u8
+      (N.shiftl (N.coq_land v (pin exts_reverse O)) (pin exts_reverse (S O))))
+    (N.shiftr v (pin exts_reverse (S (S O))))
+
+(** val e_rc : n -> n **)
+
+let e_rc v =
+  e_complement (e_reverse v)
+
+(** val e_from_slice_bounds : n list -> nat -> nat -> n **)
+
+let e_from_slice_bounds src start length0 =
+  let l =
+    if Nat.ltb O start
+    then u8 (N.shiftl (Npos XH) (nth (sub start (S O)) src N0))
+    else N0
+  in
+  let r =
+    if Nat.ltb (add start length0) (length src)
+    then u8 (N.shiftl (Npos XH) (nth (add start length0) src N0))
+    else N0
+  in
+  N.coq_lor (u8 (N.shiftl r (Npos (XO (XO XH))))) l
+
+(** val exts_left : n -> n list **)
+
+let exts_left e =
+  filter (fun b -> N.testbit e b) (N0 :: ((Npos XH) :: ((Npos (XO
+    XH)) :: ((Npos (XI XH)) :: []))))
+
+(** val exts_right : n -> n list **)
+
+let exts_right e =
+  filter (fun b -> N.testbit e (N.add b (Npos (XO (XO XH))))) (N0 :: ((Npos
+    XH) :: ((Npos (XO XH)) :: ((Npos (XI XH)) :: []))))
+
+(** val dirb : n -> bool **)
+
+let dirb d =
+  negb (N.eqb d N0)
+
+(** val sets_of : n -> val0 **)
+
+let sets_of e =
+  VL ((ofNs (exts_left e)) :: ((ofNs (exts_right e)) :: []))
+
+(** val exts_ops : (string * handler) list **)
+
+let exts_ops =
+  ((String ((Ascii (true, false, true, false, false, true, true, false)),
+    (String ((Ascii (false, true, true, true, false, true, false, false)),
+    (String ((Ascii (false, true, false, false, true, true, true, false)),
+    (String ((Ascii (true, true, false, false, false, true, true, false)),
+    EmptyString)))))))), (fun a ->
+    match a with
+    | [] -> None
+    | y :: l ->
+      (match y with
+       | VN e -> (match l with
+                  | [] -> Some (VN (e_rc e))
+                  | _ :: _ -> None)
+       | _ -> None))) :: (((String ((Ascii (true, false, true, false, false,
+    true, true, false)), (String ((Ascii (false, true, true, true, false,
+    true, false, false)), (String ((Ascii (true, true, false, false, false,
+    true, true, false)), (String ((Ascii (true, true, true, true, false,
+    true, true, false)), (String ((Ascii (true, false, true, true, false,
+    true, true, false)), (String ((Ascii (false, false, false, false, true,
+    true, true, false)), (String ((Ascii (false, false, true, true, false,
+    true, true, false)), (String ((Ascii (true, false, true, false, false,
+    true, true, false)), (String ((Ascii (true, false, true, true, false,
+    true, true, false)), (String ((Ascii (true, false, true, false, false,
+    true, true, false)), (String ((Ascii (false, true, true, true, false,
+    true, true, false)), (String ((Ascii (false, false, true, false, true,
+    true, true, false)), EmptyString)))))))))))))))))))))))), (fun a ->
+    match a with
+    | [] -> None
+    | y :: l ->
+      (match y with
+       | VN e ->
+         (match l with
+          | [] -> Some (VN (e_complement e))
+          | _ :: _ -> None)
+       | _ -> None))) :: (((String ((Ascii (true, false, true, false, false,
+    true, true, false)), (String ((Ascii (false, true, true, true, false,
+    true, false, false)), (String ((Ascii (false, true, false, false, true,
+    true, true, false)), (String ((Ascii (true, false, true, false, false,
+    true, true, false)), (String ((Ascii (false, true, true, false, true,
+    true, true, false)), (String ((Ascii (true, false, true, false, false,
+    true, true, false)), (String ((Ascii (false, true, false, false, true,
+    true, true, false)), (String ((Ascii (true, true, false, false, true,
+    true, true, false)), (String ((Ascii (true, false, true, false, false,
+    true, true, false)), EmptyString)))))))))))))))))), (fun a ->
+    match a with
+    | [] -> None
+    | y :: l ->
+      (match y with
+       | VN e -> (match l with
+                  | [] -> Some (VN (e_reverse e))
+                  | _ :: _ -> None)
+       | _ -> None))) :: (((String ((Ascii (true, false, true, false, false,
+    true, true, false)), (String ((Ascii (false, true, true, true, false,
+    true, false, false)), (String ((Ascii (true, true, true, false, false,
+    true, true, false)), (String ((Ascii (true, false, true, false, false,
+    true, true, false)), (String ((Ascii (false, false, true, false, true,
+    true, true, false)), EmptyString)))))))))), (fun a ->
+    match a with
+    | [] -> None
+    | y :: l ->
+      (match y with
+       | VN e ->
+         (match l with
+          | [] -> None
+          | v :: l0 ->
+            (match v with
+             | VN d ->
+               (match l0 with
+                | [] -> Some (ofNs (e_get e (dirb d)))
+                | _ :: _ -> None)
+             | _ -> None))
+       | _ -> None))) :: (((String ((Ascii (true, false, true, false, false,
+    true, true, false)), (String ((Ascii (false, true, true, true, false,
+    true, false, false)), (String ((Ascii (false, false, false, true, false,
+    true, true, false)), (String ((Ascii (true, false, false, false, false,
+    true, true, false)), (String ((Ascii (true, true, false, false, true,
+    true, true, false)), (String ((Ascii (true, true, true, true, true,
+    false, true, false)), (String ((Ascii (true, false, true, false, false,
+    true, true, false)), (String ((Ascii (false, false, false, true, true,
+    true, true, false)), (String ((Ascii (false, false, true, false, true,
+    true, true, false)), EmptyString)))))))))))))))))), (fun a ->
+    match a with
+    | [] -> None
+    | y :: l ->
+      (match y with
+       | VN e ->
+         (match l with
+          | [] -> None
+          | v :: l0 ->
+            (match v with
+             | VN d ->
+               (match l0 with
+                | [] -> None
+                | v0 :: l1 ->
+                  (match v0 with
+                   | VN b ->
+                     (match l1 with
+                      | [] -> Some (ofbool (e_has_ext e (dirb d) b))
+                      | _ :: _ -> None)
+                   | _ -> None))
+             | _ -> None))
+       | _ -> None))) :: (((String ((Ascii (true, false, true, false, false,
+    true, true, false)), (String ((Ascii (false, true, true, true, false,
+    true, false, false)), (String ((Ascii (true, true, false, false, true,
+    true, true, false)), (String ((Ascii (true, false, true, false, false,
+    true, true, false)), (String ((Ascii (false, false, true, false, true,
+    true, true, false)), EmptyString)))))))))), (fun a ->
+    match a with
+    | [] -> None
+    | y :: l ->
+      (match y with
+       | VN e ->
+         (match l with
+          | [] -> None
+          | v :: l0 ->
+            (match v with
+             | VN d ->
+               (match l0 with
+                | [] -> None
+                | v0 :: l1 ->
+                  (match v0 with
+                   | VN b ->
+                     (match l1 with
+                      | [] -> Some (ofopt ofN (e_set e (dirb d) b))
+                      | _ :: _ -> None)
+                   | _ -> None))
+             | _ -> None))
+       | _ -> None))) :: (((String ((Ascii (true, false, true, false, false,
+    true, true, false)), (String ((Ascii (false, true, true, true, false,
+    true, false, false)), (String ((Ascii (true, false, true, true, false,
+    true, true, false)), (String ((Ascii (true, false, true, false, false,
+    true, true, false)), (String ((Ascii (false, true, false, false, true,
+    true, true, false)), (String ((Ascii (true, true, true, false, false,
+    true, true, false)), (String ((Ascii (true, false, true, false, false,
+    true, true, false)), EmptyString)))))))))))))), (fun a ->
+    match a with
+    | [] -> None
+    | y :: l0 ->
+      (match y with
+       | VN l ->
+         (match l0 with
+          | [] -> None
+          | v :: l1 ->
+            (match v with
+             | VN r ->
+               (match l1 with
+                | [] -> Some (VN (e_merge l r))
+                | _ :: _ -> None)
+             | _ -> None))
+       | _ -> None))) :: (((String ((Ascii (true, false, true, false, false,
+    true, true, false)), (String ((Ascii (false, true, true, true, false,
+    true, false, false)), (String ((Ascii (false, true, true, false, false,
+    true, true, false)), (String ((Ascii (false, true, false, false, true,
+    true, true, false)), (String ((Ascii (true, true, true, true, false,
+    true, true, false)), (String ((Ascii (true, false, true, true, false,
+    true, true, false)), (String ((Ascii (true, true, true, true, true,
+    false, true, false)), (String ((Ascii (true, true, false, false, true,
+    true, true, false)), (String ((Ascii (true, false, false, true, false,
+    true, true, false)), (String ((Ascii (false, true, true, true, false,
+    true, true, false)), (String ((Ascii (true, true, true, false, false,
+    true, true, false)), (String ((Ascii (false, false, true, true, false,
+    true, true, false)), (String ((Ascii (true, false, true, false, false,
+    true, true, false)), (String ((Ascii (true, true, true, true, true,
+    false, true, false)), (String ((Ascii (false, false, true, false, false,
+    true, true, false)), (String ((Ascii (true, false, false, true, false,
+    true, true, false)), (String ((Ascii (false, true, false, false, true,
+    true, true, false)), (String ((Ascii (true, true, false, false, true,
+    true, true, false)), EmptyString)))))))))))))))))))))))))))))))))))),
+    (fun a ->
+    match a with
+    | [] -> None
+    | y :: l0 ->
+      (match y with
+       | VN l ->
+         (match l0 with
+          | [] -> None
+          | v :: l1 ->
+            (match v with
+             | VN r ->
+               (match l1 with
+                | [] -> Some (VN (e_from_single_dirs l r))
+                | _ :: _ -> None)
+             | _ -> None))
+       | _ -> None))) :: (((String ((Ascii (true, false, true, false, false,
+    true, true, false)), (String ((Ascii (false, true, true, true, false,
+    true, false, false)), (String ((Ascii (true, false, false, false, false,
+    true, true, false)), (String ((Ascii (false, false, true, false, false,
+    true, true, false)), (String ((Ascii (false, false, true, false, false,
+    true, true, false)), EmptyString)))))))))), (fun a ->
+    match a with
+    | [] -> None
+    | y :: l0 ->
+      (match y with
+       | VN l ->
+         (match l0 with
+          | [] -> None
+          | v :: l1 ->
+            (match v with
+             | VN r ->
+               (match l1 with
+                | [] -> Some (VN (e_add l r))
+                | _ :: _ -> None)
+             | _ -> None))
+       | _ -> None))) :: (((String ((Ascii (true, false, true, false, false,
+    true, true, false)), (String ((Ascii (false, true, true, true, false,
+    true, false, false)), (String ((Ascii (false, true, true, true, false,
+    true, true, false)), (String ((Ascii (true, false, true, false, true,
+    true, true, false)), (String ((Ascii (true, false, true, true, false,
+    true, true, false)), (String ((Ascii (true, true, true, true, true,
+    false, true, false)), (String ((Ascii (true, false, true, false, false,
+    true, true, false)), (String ((Ascii (false, false, false, true, true,
+    true, true, false)), (String ((Ascii (false, false, true, false, true,
+    true, true, false)), (String ((Ascii (true, true, true, true, true,
+    false, true, false)), (String ((Ascii (false, false, true, false, false,
+    true, true, false)), (String ((Ascii (true, false, false, true, false,
+    true, true, false)), (String ((Ascii (false, true, false, false, true,
+    true, true, false)), EmptyString)))))))))))))))))))))))))), (fun a ->
+    match a with
+    | [] -> None
+    | y :: l ->
+      (match y with
+       | VN e ->
+         (match l with
+          | [] -> None
+          | v :: l0 ->
+            (match v with
+             | VN d ->
+               (match l0 with
+                | [] -> Some (VN (e_num_ext_dir e (dirb d)))
+                | _ :: _ -> None)
+             | _ -> None))
+       | _ -> None))) :: (((String ((Ascii (true, false, true, false, false,
+    true, true, false)), (String ((Ascii (false, true, true, true, false,
+    true, false, false)), (String ((Ascii (true, true, true, false, false,
+    true, true, false)), (String ((Ascii (true, false, true, false, false,
+    true, true, false)), (String ((Ascii (false, false, true, false, true,
+    true, true, false)), (String ((Ascii (true, true, true, true, true,
+    false, true, false)), (String ((Ascii (true, false, true, false, true,
+    true, true, false)), (String ((Ascii (false, true, true, true, false,
+    true, true, false)), (String ((Ascii (true, false, false, true, false,
+    true, true, false)), (String ((Ascii (true, false, false, false, true,
+    true, true, false)), (String ((Ascii (true, false, true, false, true,
+    true, true, false)), (String ((Ascii (true, false, true, false, false,
+    true, true, false)), (String ((Ascii (true, true, true, true, true,
+    false, true, false)), (String ((Ascii (true, false, true, false, false,
+    true, true, false)), (String ((Ascii (false, false, false, true, true,
+    true, true, false)), (String ((Ascii (false, false, true, false, true,
+    true, true, false)), (String ((Ascii (true, false, true, false, false,
+    true, true, false)), (String ((Ascii (false, true, true, true, false,
+    true, true, false)), (String ((Ascii (true, true, false, false, true,
+    true, true, false)), (String ((Ascii (true, false, false, true, false,
+    true, true, false)), (String ((Ascii (true, true, true, true, false,
+    true, true, false)), (String ((Ascii (false, true, true, true, false,
+    true, true, false)),
+    EmptyString)))))))))))))))))))))))))))))))))))))))))))), (fun a ->
+    match a with
+    | [] -> None
+    | y :: l ->
+      (match y with
+       | VN e ->
+         (match l with
+          | [] -> None
+          | v :: l0 ->
+            (match v with
+             | VN d ->
+               (match l0 with
+                | [] -> Some (ofoptN (e_get_unique_extension e (dirb d)))
+                | _ :: _ -> None)
+             | _ -> None))
+       | _ -> None))) :: (((String ((Ascii (true, false, true, false, false,
+    true, true, false)), (String ((Ascii (false, true, true, true, false,
+    true, false, false)), (String ((Ascii (true, true, false, false, true,
+    true, true, false)), (String ((Ascii (true, false, false, true, false,
+    true, true, false)), (String ((Ascii (false, true, true, true, false,
+    true, true, false)), (String ((Ascii (true, true, true, false, false,
+    true, true, false)), (String ((Ascii (false, false, true, true, false,
+    true, true, false)), (String ((Ascii (true, false, true, false, false,
+    true, true, false)), (String ((Ascii (true, true, true, true, true,
+    false, true, false)), (String ((Ascii (false, false, true, false, false,
+    true, true, false)), (String ((Ascii (true, false, false, true, false,
+    true, true, false)), (String ((Ascii (false, true, false, false, true,
+    true, true, false)), EmptyString)))))))))))))))))))))))), (fun a ->
+    match a with
+    | [] -> None
+    | y :: l ->
+      (match y with
+       | VN e ->
+         (match l with
+          | [] -> None
+          | v :: l0 ->
+            (match v with
+             | VN d ->
+               (match l0 with
+                | [] -> Some (VN (e_single_dir e (dirb d)))
+                | _ :: _ -> None)
+             | _ -> None))
+       | _ -> None))) :: (((String ((Ascii (true, false, true, false, false,
+    true, true, false)), (String ((Ascii (false, true, true, true, false,
+    true, false, false)), (String ((Ascii (true, false, true, true, false,
+    true, true, false)), (String ((Ascii (true, true, false, true, false,
+    true, true, false)), EmptyString)))))))), (fun a ->
+    match a with
+    | [] -> None
+    | y :: l0 ->
+      (match y with
+       | VN l ->
+         (match l0 with
+          | [] -> None
+          | v :: l1 ->
+            (match v with
+             | VN r ->
+               (match l1 with
+                | [] -> Some (ofopt ofN (e_mk l r))
+                | _ :: _ -> None)
+             | _ -> None))
+       | _ -> None))) :: (((String ((Ascii (true, false, true, false, false,
+    true, true, false)), (String ((Ascii (false, true, true, true, false,
+    true, false, false)), (String ((Ascii (true, false, true, true, false,
+    true, true, false)), (String ((Ascii (true, true, false, true, false,
+    true, true, false)), (String ((Ascii (true, true, true, true, true,
+    false, true, false)), (String ((Ascii (false, false, true, true, false,
+    true, true, false)), (String ((Ascii (true, false, true, false, false,
+    true, true, false)), (String ((Ascii (false, true, true, false, false,
+    true, true, false)), (String ((Ascii (false, false, true, false, true,
+    true, true, false)), EmptyString)))))))))))))))))), (fun a ->
+    match a with
+    | [] -> None
+    | y :: l0 ->
+      (match y with
+       | VN l ->
+         (match l0 with
+          | [] -> Some (ofopt ofN (e_mk_left l))
+          | _ :: _ -> None)
+       | _ -> None))) :: (((String ((Ascii (true, false, true, false, false,
+    true, true, false)), (String ((Ascii (false, true, true, true, false,
+    true, false, false)), (String ((Ascii (true, false, true, true, false,
+    true, true, false)), (String ((Ascii (true, true, false, true, false,
+    true, true, false)), (String ((Ascii (true, true, true, true, true,
+    false, true, false)), (String ((Ascii (false, true, false, false, true,
+    true, true, false)), (String ((Ascii (true, false, false, true, false,
+    true, true, false)), (String ((Ascii (true, true, true, false, false,
+    true, true, false)), (String ((Ascii (false, false, false, true, false,
+    true, true, false)), (String ((Ascii (false, false, true, false, true,
+    true, true, false)), EmptyString)))))))))))))))))))), (fun a ->
+    match a with
+    | [] -> None
+    | y :: l0 ->
+      (match y with
+       | VN l ->
+         (match l0 with
+          | [] -> Some (ofopt ofN (e_mk_right l))
+          | _ :: _ -> None)
+       | _ -> None))) :: (((String ((Ascii (true, false, true, false, false,
+    true, true, false)), (String ((Ascii (false, true, true, true, false,
+    true, false, false)), (String ((Ascii (false, true, true, false, false,
+    true, true, false)), (String ((Ascii (false, true, false, false, true,
+    true, true, false)), (String ((Ascii (true, true, true, true, false,
+    true, true, false)), (String ((Ascii (true, false, true, true, false,
+    true, true, false)), (String ((Ascii (true, true, true, true, true,
+    false, true, false)), (String ((Ascii (true, true, false, false, true,
+    true, true, false)), (String ((Ascii (false, false, true, true, false,
+    true, true, false)), (String ((Ascii (true, false, false, true, false,
+    true, true, false)), (String ((Ascii (true, true, false, false, false,
+    true, true, false)), (String ((Ascii (true, false, true, false, false,
+    true, true, false)), (String ((Ascii (true, true, true, true, true,
+    false, true, false)), (String ((Ascii (false, true, false, false, false,
+    true, true, false)), (String ((Ascii (true, true, true, true, false,
+    true, true, false)), (String ((Ascii (true, false, true, false, true,
+    true, true, false)), (String ((Ascii (false, true, true, true, false,
+    true, true, false)), (String ((Ascii (false, false, true, false, false,
+    true, true, false)), (String ((Ascii (true, true, false, false, true,
+    true, true, false)), EmptyString)))))))))))))))))))))))))))))))))))))),
+    (fun a ->
+    match a with
+    | [] -> None
+    | y :: l ->
+      (match y with
+       | VL src ->
+         (match l with
+          | [] -> None
+          | v :: l0 ->
+            (match v with
+             | VN st ->
+               (match l0 with
+                | [] -> None
+                | v0 :: l1 ->
+                  (match v0 with
+                   | VN len ->
+                     (match l1 with
+                      | [] ->
+                        (match vlistN src with
+                         | Some d ->
+                           Some (VN
+                             (e_from_slice_bounds d (N.to_nat st)
+                               (N.to_nat len)))
+                         | None -> None)
+                      | _ :: _ -> None)
+                   | _ -> None))
+             | _ -> None))
+       | _ -> None))) :: (((String ((Ascii (true, false, true, false, false,
+    true, true, false)), (String ((Ascii (false, true, true, true, false,
+    true, false, false)), (String ((Ascii (true, true, false, false, true,
+    true, true, false)), (String ((Ascii (true, false, true, false, false,
+    true, true, false)), (String ((Ascii (false, false, true, false, true,
+    true, true, false)), (String ((Ascii (true, true, false, false, true,
+    true, true, false)), EmptyString)))))))))))), (fun a ->
+    match a with
+    | [] -> None
+    | y :: l ->
+      (match y with
+       | VN e -> (match l with
+                  | [] -> Some (sets_of e)
+                  | _ :: _ -> None)
+       | _ -> None))) :: (((String ((Ascii (true, true, false, false, true,
+    true, true, false)), (String ((Ascii (false, true, true, true, false,
+    true, false, false)), (String ((Ascii (true, false, true, false, false,
+    true, true, false)), (String ((Ascii (false, true, true, true, false,
+    true, false, false)), (String ((Ascii (false, true, false, false, true,
+    true, true, false)), (String ((Ascii (true, true, false, false, false,
+    true, true, false)), EmptyString)))))))))))), (fun a ->
+    match a with
+    | [] -> None
+    | y :: l0 ->
+      (match y with
+       | VL l ->
+         (match l0 with
+          | [] -> None
+          | v :: l1 ->
+            (match v with
+             | VL r ->
+               (match l1 with
+                | [] ->
+                  (match vlistN l with
+                   | Some l2 ->
+                     (match vlistN r with
+                      | Some r0 ->
+                        Some (VL
+                          ((ofNs (rev (map comp r0))) :: ((ofNs
+                                                            (rev
+                                                              (map comp l2))) :: [])))
+                      | None -> None)
+                   | None -> None)
+                | _ :: _ -> None)
+             | _ -> None))
+       | _ -> None))) :: (((String ((Ascii (true, true, false, false, true,
+    true, true, false)), (String ((Ascii (false, true, true, true, false,
+    true, false, false)), (String ((Ascii (true, false, true, false, false,
+    true, true, false)), (String ((Ascii (false, true, true, true, false,
+    true, false, false)), (String ((Ascii (true, true, false, false, true,
+    true, true, false)), (String ((Ascii (true, false, true, false, false,
+    true, true, false)), (String ((Ascii (false, false, true, false, true,
+    true, true, false)), EmptyString)))))))))))))), (fun a ->
+    match a with
+    | [] -> None
+    | y :: l0 ->
+      (match y with
+       | VL l ->
+         (match l0 with
+          | [] -> None
+          | v :: l1 ->
+            (match v with
+             | VL r ->
+               (match l1 with
+                | [] -> None
+                | v0 :: l2 ->
+                  (match v0 with
+                   | VN d ->
+                     (match l2 with
+                      | [] -> None
+                      | v1 :: l3 ->
+                        (match v1 with
+                         | VN b ->
+                           (match l3 with
+                            | [] ->
+                              (match vlistN l with
+                               | Some l4 ->
+                                 (match vlistN r with
+                                  | Some r0 ->
+                                    let ins = fun s ->
+                                      filter (fun c ->
+                                        (||) (existsb (N.eqb c) s) (N.eqb c b))
+                                        (N0 :: ((Npos XH) :: ((Npos (XO
+                                        XH)) :: ((Npos (XI XH)) :: []))))
+                                    in
+                                    Some
+                                    (if dirb d
+                                     then VL
+                                            ((ofNs l4) :: ((ofNs (ins r0)) :: []))
+                                     else VL
+                                            ((ofNs (ins l4)) :: ((ofNs r0) :: [])))
+                                  | None -> None)
+                               | None -> None)
+                            | _ :: _ -> None)
+                         | _ -> None))
+                   | _ -> None))
+             | _ -> None))
+       | _ -> None))) :: (((String ((Ascii (true, true, false, false, true,
+    true, true, false)), (String ((Ascii (false, true, true, true, false,
+    true, false, false)), (String ((Ascii (true, false, true, false, false,
+    true, true, false)), (String ((Ascii (false, true, true, true, false,
+    true, false, false)), (String ((Ascii (true, false, true, true, false,
+    true, true, false)), (String ((Ascii (true, false, true, false, false,
+    true, true, false)), (String ((Ascii (false, true, false, false, true,
+    true, true, false)), (String ((Ascii (true, true, true, false, false,
+    true, true, false)), (String ((Ascii (true, false, true, false, false,
+    true, true, false)), EmptyString)))))))))))))))))), (fun a ->
+    match a with
+    | [] -> None
+    | y :: l ->
+      (match y with
+       | VL l1 ->
+         (match l with
+          | [] -> None
+          | v :: l0 ->
+            (match v with
+             | VL _ ->
+               (match l0 with
+                | [] -> None
+                | v0 :: l3 ->
+                  (match v0 with
+                   | VL _ ->
+                     (match l3 with
+                      | [] -> None
+                      | v1 :: l4 ->
+                        (match v1 with
+                         | VL r2 ->
+                           (match l4 with
+                            | [] ->
+                              (match vlistN l1 with
+                               | Some l2 ->
+                                 (match vlistN r2 with
+                                  | Some r ->
+                                    Some (VL ((ofNs l2) :: ((ofNs r) :: [])))
+                                  | None -> None)
+                               | None -> None)
+                            | _ :: _ -> None)
+                         | _ -> None))
+                   | _ -> None))
+             | _ -> None))
+       | _ -> None))) :: (((String ((Ascii (true, true, false, false, true,
+    true, true, false)), (String ((Ascii (false, true, true, true, false,
+    true, false, false)), (String ((Ascii (true, false, true, false, false,
+    true, true, false)), (String ((Ascii (false, true, true, true, false,
+    true, false, false)), (String ((Ascii (true, false, true, false, true,
+    true, true, false)), (String ((Ascii (false, true, true, true, false,
+    true, true, false)), (String ((Ascii (true, false, false, true, false,
+    true, true, false)), (String ((Ascii (true, false, false, false, true,
+    true, true, false)), (String ((Ascii (true, false, true, false, true,
+    true, true, false)), (String ((Ascii (true, false, true, false, false,
+    true, true, false)), EmptyString)))))))))))))))))))), (fun a ->
+    match a with
+    | [] -> None
+    | y :: l0 ->
+      (match y with
+       | VL l ->
+         (match l0 with
+          | [] -> None
+          | v :: l1 ->
+            (match v with
+             | VL r ->
+               (match l1 with
+                | [] -> None
+                | v0 :: l2 ->
+                  (match v0 with
+                   | VN d ->
+                     (match l2 with
+                      | [] ->
+                        (match vlistN l with
+                         | Some l3 ->
+                           (match vlistN r with
+                            | Some r0 ->
+                              Some
+                                (match if dirb d then r0 else l3 with
+                                 | [] -> VL []
+                                 | b :: l4 ->
+                                   (match l4 with
+                                    | [] -> VL ((VN b) :: [])
+                                    | _ :: _ -> VL []))
+                            | None -> None)
+                         | None -> None)
+                      | _ :: _ -> None)
+                   | _ -> None))
+             | _ -> None))
+       | _ -> None))) :: (((String ((Ascii (true, true, false, false, true,
+    true, true, false)), (String ((Ascii (false, true, true, true, false,
+    true, false, false)), (String ((Ascii (true, false, true, false, false,
+    true, true, false)), (String ((Ascii (false, true, true, true, false,
+    true, false, false)), (String ((Ascii (false, true, true, true, false,
+    true, true, false)), (String ((Ascii (true, false, true, false, true,
+    true, true, false)), (String ((Ascii (true, false, true, true, false,
+    true, true, false)), EmptyString)))))))))))))), (fun a ->
+    match a with
+    | [] -> None
+    | y :: l0 ->
+      (match y with
+       | VL l ->
+         (match l0 with
+          | [] -> None
+          | v :: l1 ->
+            (match v with
+             | VL r ->
+               (match l1 with
+                | [] -> None
+                | v0 :: l2 ->
+                  (match v0 with
+                   | VN d ->
+                     (match l2 with
+                      | [] ->
+                        (match vlistN l with
+                         | Some l3 ->
+                           (match vlistN r with
+                            | Some r0 ->
+                              Some (VN
+                                (N.of_nat
+                                  (length (if dirb d then r0 else l3))))
+                            | None -> None)
+                         | None -> None)
+                      | _ :: _ -> None)
+                   | _ -> None))
+             | _ -> None))
+       | _ -> None))) :: (((String ((Ascii (true, true, false, false, true,
+    true, true, false)), (String ((Ascii (false, true, true, true, false,
+    true, false, false)), (String ((Ascii (true, false, true, false, false,
+    true, true, false)), (String ((Ascii (false, true, true, true, false,
+    true, false, false)), (String ((Ascii (false, true, false, false, false,
+    true, true, false)), (String ((Ascii (true, true, true, true, false,
+    true, true, false)), (String ((Ascii (true, false, true, false, true,
+    true, true, false)), (String ((Ascii (false, true, true, true, false,
+    true, true, false)), (String ((Ascii (false, false, true, false, false,
+    true, true, false)), (String ((Ascii (true, true, false, false, true,
+    true, true, false)), EmptyString)))))))))))))))))))), (fun a ->
+    match a with
+    | [] -> None
+    | y :: l ->
+      (match y with
+       | VL src ->
+         (match l with
+          | [] -> None
+          | v :: l0 ->
+            (match v with
+             | VN st ->
+               (match l0 with
+                | [] -> None
+                | v0 :: l1 ->
+                  (match v0 with
+                   | VN len ->
+                     (match l1 with
+                      | [] ->
+                        (match vlistN src with
+                         | Some d ->
+                           let s = N.to_nat st in
+                           let n0 = N.to_nat len in
+                           Some (VL
+                           ((ofNs
+                              (if Nat.ltb O s
+                               then (nth (sub s (S O)) d N0) :: []
+                               else [])) :: ((ofNs
+                                               (if Nat.ltb (add s n0)
+                                                     (length d)
+                                                then (nth (add s n0) d N0) :: []
+                                                else [])) :: [])))
+                         | None -> None)
+                      | _ :: _ -> None)
+                   | _ -> None))
+             | _ -> None))
+       | _ -> None))) :: []))))))))))))))))))))))
+
+(** val d_exts : string -> val0 -> val0 option **)
+
+let d_exts =
+  run_table exts_ops
+
 (** val cfg_of : n -> n -> kcfg **)
 
 let cfg_of w k =
   mkc (N.to_nat w) (N.to_nat k)
-
-type handler = val0 list -> val0 option
-
-(** val lookup : string -> (string * handler) list -> handler option **)
-
-let rec lookup op = function
-| [] -> None
-| p :: r -> let (n0, h) = p in if eqb1 op n0 then Some h else lookup op r
 
 (** val v_kinit : val0 -> kinit option **)
 
@@ -4144,6 +5053,84 @@ let d_spec_kmer op = function
       | _ -> None))
 | _ -> None
 
+(** val generic_spec_ops : (string * handler) list **)
+
+let generic_spec_ops =
+  ((String ((Ascii (true, true, false, false, true, true, true, false)),
+    (String ((Ascii (false, true, true, true, false, true, false, false)),
+    (String ((Ascii (false, true, false, false, true, true, true, false)),
+    (String ((Ascii (true, true, false, false, false, true, true, false)),
+    EmptyString)))))))), (fun a ->
+    match a with
+    | [] -> None
+    | y :: l0 ->
+      (match y with
+       | VL l ->
+         (match l0 with
+          | [] ->
+            (match vlistN l with
+             | Some d -> Some (ofNs (rc d))
+             | None -> None)
+          | _ :: _ -> None)
+       | _ -> None))) :: (((String ((Ascii (true, true, false, false, true,
+    true, true, false)), (String ((Ascii (false, true, true, true, false,
+    true, false, false)), (String ((Ascii (true, true, false, true, false,
+    true, true, false)), (String ((Ascii (true, false, true, true, false,
+    true, true, false)), (String ((Ascii (true, false, true, false, false,
+    true, true, false)), (String ((Ascii (false, true, false, false, true,
+    true, true, false)), (String ((Ascii (true, true, false, false, true,
+    true, true, false)), (String ((Ascii (true, true, true, true, true,
+    false, true, false)), (String ((Ascii (true, true, true, true, false,
+    true, true, false)), (String ((Ascii (false, true, true, false, false,
+    true, true, false)), (String ((Ascii (true, true, true, true, true,
+    false, true, false)), (String ((Ascii (false, true, false, false, true,
+    true, true, false)), (String ((Ascii (true, true, false, false, false,
+    true, true, false)), EmptyString)))))))))))))))))))))))))), (fun a ->
+    match a with
+    | [] -> None
+    | y :: l0 ->
+      (match y with
+       | VN k ->
+         (match l0 with
+          | [] -> None
+          | v :: l1 ->
+            (match v with
+             | VL l ->
+               (match l1 with
+                | [] ->
+                  (match vlistN l with
+                   | Some d ->
+                     Some (VL (map ofNs (kmers (N.to_nat k) (rc d))))
+                   | None -> None)
+                | _ :: _ -> None)
+             | _ -> None))
+       | _ -> None))) :: (((String ((Ascii (true, true, false, false, true,
+    true, true, false)), (String ((Ascii (false, true, true, true, false,
+    true, false, false)), (String ((Ascii (true, true, false, true, false,
+    true, true, false)), (String ((Ascii (true, false, true, true, false,
+    true, true, false)), (String ((Ascii (true, false, true, false, false,
+    true, true, false)), (String ((Ascii (false, true, false, false, true,
+    true, true, false)), (String ((Ascii (true, true, false, false, true,
+    true, true, false)), EmptyString)))))))))))))), (fun a ->
+    match a with
+    | [] -> None
+    | y :: l0 ->
+      (match y with
+       | VN k ->
+         (match l0 with
+          | [] -> None
+          | v :: l1 ->
+            (match v with
+             | VL l ->
+               (match l1 with
+                | [] ->
+                  (match vlistN l with
+                   | Some d -> Some (VL (map ofNs (kmers (N.to_nat k) d)))
+                   | None -> None)
+                | _ :: _ -> None)
+             | _ -> None))
+       | _ -> None))) :: []))
+
 (** val prefix2 : string -> string **)
 
 let prefix2 op =
@@ -4163,4 +5150,17 @@ let dispatch op v =
             (String ((Ascii (false, true, true, true, false, true, false,
             false)), EmptyString))))))))
        then d_spec_kmer op v
-       else None
+       else if (||)
+                 (eqb1 (prefix2 op) (String ((Ascii (true, false, true,
+                   false, false, true, true, false)), (String ((Ascii (false,
+                   true, true, true, false, true, false, false)),
+                   EmptyString)))))
+                 (eqb1 (substring O (S (S (S (S O)))) op) (String ((Ascii
+                   (true, true, false, false, true, true, true, false)),
+                   (String ((Ascii (false, true, true, true, false, true,
+                   false, false)), (String ((Ascii (true, false, true, false,
+                   false, true, true, false)), (String ((Ascii (false, true,
+                   true, true, false, true, false, false)),
+                   EmptyString)))))))))
+            then d_exts op v
+            else run_table generic_spec_ops op v
